@@ -23,6 +23,8 @@ pub struct Entry {
     ///  heavy  - adversarial for limits (C20)
     ///  stopc  - completes (NoExtension) after finite output
     ///  capt   - rules with [capture] (captures are an observable of C11 / C12 / C14)
+    ///  stopl  - lexemes with stop= / suffix= (outside the core fragment: only the C11 sub-family
+    ///           cache_stop_lexeme uses them)
     pub tags: &'static str,
 }
 
@@ -162,6 +164,21 @@ stopped[lazy]: /[^"\\\x00-\x1F\x7F]*;/
     g!("lazy_vs_greedy_words", Lark, "prod str lazyg", r##"start: WORDS | upto "=" /[0-9]+/
 WORDS: /[a-zA-Z0-9_ =]*/
 upto[lazy]: /[a-zA-Z0-9_ ]*=/
+"##),
+    g!("stopl_done", Lark, "stopl", r##"start: body "done"
+body[stop=";"]: /[a-z]*/
+"##),
+    g!("stopl_two", Lark, "stopl", r##"start: "q:" ans tail
+ans[stop="."]: /[a-z ]*/
+tail: "ok" | "okay" | /[0-9]+/ "!"
+"##),
+    g!("stopl_suffix", Lark, "stopl", r##"start: name val
+name[suffix=":"]: /[a-z]+/
+val: " yes" | " yep" | /[0-9]{1,3}/
+"##),
+    g!("stopl_capture", Lark, "stopl", r##"start: a b "."
+a[capture, stop="!"]: /[a-z]*/
+b[capture]: "fin" | "final"
 "##),
     g!("capt_alt", Lark, "prod capt", r##"start: one "-" (two | three)
 one[capture]: /[a-z]+/
